@@ -1,4 +1,4 @@
-\* C18 RangeLock with the proposed repairs (FixEmpty: ranges covering no byte are granted without being stored; FixAdjust: adjust_range wakes waiters): every invariant on the whole scope.
+\* C18 RangeLock with the proposed repairs (FixEmpty: ranges covering no byte are granted without being stored; FixAdjust: adjust_range wakes waiters): every invariant on the whole scope. Quick tier: word 0..2, lock() and try_lock_wait callers.
 SPECIFICATION Spec
 CONSTANTS
   MAXU = 2
